@@ -14,7 +14,7 @@ from props.c02 import collect_simple
 from props.c03 import build_request, read_all, sym_bytes, chunked_body
 
 LEVEL = 'model_checking'
-CONVS = ['cl-small+get', 'chunked+get', 'cl-1025+get', 'cl-1025-unread+get', 'malformed-second', 'truncated-small-body']
+CONVS = ['cl-small+get', 'chunked+get', 'cl-1025+get', 'cl-1025-unread+get', 'malformed-second', 'truncated-small-body', 'expect-eager+get']
 
 
 def make_conv(ctx, name, tier):
@@ -24,6 +24,10 @@ def make_conv(ctx, name, tier):
         data, body, declared, end, headlen = build_request(ctx, 'chunked', tier)
     elif name in ('cl-1025+get', 'cl-1025-unread+get'):
         data, body, declared, end, headlen = build_request(ctx, 'cl-1025', tier, concrete_body=(name == 'cl-1025-unread+get'))
+    elif name == 'expect-eager+get':
+        # Expect: 100-continue whose body is sent without waiting for the interim response (allowed): how much of it has
+        # arrived when the application asks for the body depends on the segmentation only
+        data, body, declared, end, headlen = build_request(ctx, 'cl-small', tier, expect=True)
     elif name == 'malformed-second':
         data = K(b'GET /1 HTTP/1.1\r\nHost: h\r\n\r\n') + K(b'GET /2\r\n\r\n')
     else:
@@ -31,8 +35,15 @@ def make_conv(ctx, name, tier):
     return data
 
 
+TIMED = {'on': False}
+
+
 def one_run(S, ctx, data, tag, reads, short, read_bodies=True):
+    # the BufReader in front of the socket is modelled with its read-ahead buffer here (each refill is one socket read of up to
+    # its capacity), so that segment boundaries are seen wherever the real code can see them: in bodies AND in the head
+    ctx.data['bufreader_mode'] = 'buffered'
     cv = Conv(S, ctx, data, end='eof', short_reads=short)
+    cv.wire.read_timeout = bool(TIMED['on'] and short)
     out = {'urls': [], 'bodies': [], 'blocked': False, 'panic': None}
     try:
         for i in range(3):
@@ -60,10 +71,24 @@ def one_run(S, ctx, data, tag, reads, short, read_bodies=True):
 
 
 def run(L, rep, tier, seed):
+    # pauses: they can only matter if the server sets a read timeout (or non-blocking mode) on the sockets it accepts; the
+    # accept-thread closure is run from the MIR to find out; if it does, the segmented runs also let the client pause at a
+    # segment boundary for longer than the timeout (the read then ends with WouldBlock)
+    from props import c20
+    n0 = len(rep.samples)
+    c20.accept_loop(L, rep, tier, seed, prop='C13', options_only=True)
+    opts = set()
+    for smp in rep.samples[n0:]:
+        if isinstance(smp, dict) and 'accepted_socket_options' in smp:
+            for o in smp['accepted_socket_options']:
+                opts.add(tuple(o))
+    timed = sorted(o for o in opts if (o[0] in ('set_read_timeout',) and o[1] == 'some') or (o[0] == 'set_nonblocking' and 'True' in o[1]))
+    TIMED['on'] = bool(timed)
+    rep.bounds['socket-options-on-accepted-connections'] = [list(o) for o in sorted(opts)]
     S = Session(L, rep, seed)
-    rep.assumptions += ['segmentation = short reads at the BufReader interface (BufReader itself is a FIFO pipe); pauses have no '
-                        'representation: no encoded function on this path reads a clock or sets a read timeout',
-                        'head parsing reads byte-wise through the pipe, so only body reads see segment boundaries']
+    rep.assumptions += ['segmentation = the sizes of the socket reads behind the BufReader (modelled with its read-ahead buffer); a pause is '
+                        'observable only through a read timeout / non-blocking mode set on the accepted socket, which is looked for in the '
+                        'accept-thread closure (found: %s)' % (timed or 'none')]
 
     def h(ctx):
         name = CONVS[ctx.choose(len(CONVS), 'conversation')]
